@@ -58,6 +58,9 @@ func scale(g *GenCfg) *GenCfg {
 		g.SlabAny = true
 		g.MaxOps = g.MaxOps * 5 / 2
 		g.MaxBulk = g.MaxBulk * 8
+		if g.MaxBulk > 640 {
+			g.MaxBulk = 640 // larger bursts make single cases take minutes (every burst is checked up to 48 times from inside)
+		}
 	}
 	return g
 }
